@@ -17,7 +17,8 @@ EXPLANATION = (
     "tier); (R14.5) cloning a box never carries its vertex cache (intersection relies on recomputing the polygon from "
     "the current fields). "
     "(R14.7) the covered fraction rests on the intersection clauses shared with C08 (pre-filter wiring with both radii, clip of polygons of both boxes, fresh clones)."
-    ' R14.1 also requires that nothing but option plumbing touches the rank (no clamp / arithmetic on the score).')
+    ' R14.1 also requires that nothing but option plumbing touches the rank (no clamp / arithmetic on the score).'
+    ' R14.1 also requires a stable ranking sort (ties in input order: top of a tie kept, nms(nms(x)) = nms(x)); (R14.8) the clipping predicate behind the covered fraction is a sign test.')
 NOT_DECIDED = ["maximality / independence / idempotence for concrete geometry", "exactness of the intersection area (C08, N/A)"]
 ASSUMPTIONS = ["itertools::sorted_by is a stable sort by the comparator", "rustc nightly MIR construction"]
 NMS = 'utils::nms::nms'
